@@ -249,12 +249,13 @@ def accepts (s : Schema) (t : TV) : Bool := match decode s t with | .ok _ => tru
 
 Two leniencies of the serde data model on top of `decode`: a struct is also read from an **array**, positionally in
 declaration order (elements beyond the last field are ignored; a missing trailing element is an error unless the field
-has `#[serde(default)]`), and a unit-variant enum is also read from a **single-key table** `{ variant = {} }`. -/
+has `#[serde(default)]`), and a unit-variant enum is also read from a **single-key table** `{ variant = {} }` or `{ variant = [] }`. -/
 
 /-- `buf`: the value is being read out of serde's `Content` buffer (inside an `untagged` enum), where the table form
 of an enum is not accepted -/
 def enumOfTable (buf : Bool) (vs : List String) : List (String × TV) → Option String
   | [(k, .tbl [])] => if !buf && vs.contains k then some k else none
+  | [(k, .arr [])] => if !buf && vs.contains k then some k else none
   | _ => none
 
 def decodeStrsSerde (buf : Bool) (v : StrV) : List TV → Except Err (List String)
